@@ -328,29 +328,46 @@ def climb : Nat → Path → Name → Option (Path × Name)
     if p.dropLast.length < 2 || n.length < 2 then none
     else climb k p.dropLast n.dropLast
 
-/-- "first build a list of potential import files"; `none` = `ImportError` -/
-def candidates (self : Name) (rel : Option Path) (i : Imp) : Option (List Cand) :=
+/-- "first build a list of potential import files"; `none` = `ImportError`.  Two deviation flags:
+`relPkg` – a relative import executed by a plain member of a package (context name ≠ its `rel_import_path`) starts at
+the member's PACKAGE (`fix:` C11-F1; before it the member's own name was used: `modules.p.s.t` for `modules/p/t.py`,
+finding C10-F4); `submod` – a submodule file reached by its dotted name (`import p.s`) gets its package directory as
+`rel_import_path` (`fix:` C11-F4; before it `None` under `modules/`, the non-existent `apps/p/s` under `apps/`). -/
+def candidatesCfg (relPkg submod : Bool) (self : Name) (rel : Option Path) (i : Imp) : Option (List Cand) :=
   if 0 < i.level then
     match rel with
     | none => none
     | some r =>
-      match climb (i.level - 1) (modParts r) self with
+      match climb (i.level - 1) (modParts r) (if relPkg && !(self == modParts r) then self.dropLast else self) with
       | none => none
       | some (p, n) =>
         some [ { name := n ++ i.mod, file := p ++ i.mod ++ ["__init__"], relImport := some (p ++ i.mod) },
                { name := n ++ i.mod, file := p ++ i.mod, relImport := some p } ]
   else
+    let isSub : Bool := submod && 1 < i.mod.length
     let apps : List Cand :=
       match rel with
       | some r =>
         if isUnder "apps" r then
           [ { name := "apps" :: i.mod, file := "apps" :: i.mod ++ ["__init__"], relImport := some ("apps" :: i.mod) },
-            { name := "apps" :: i.mod, file := "apps" :: i.mod, relImport := some ("apps" :: i.mod) } ]
+            { name := "apps" :: i.mod, file := "apps" :: i.mod,
+              relImport := if isSub then some ("apps" :: i.mod).dropLast else some ("apps" :: i.mod) } ]
         else []
       | none => []
     some (apps ++
       [ { name := "modules" :: i.mod, file := "modules" :: i.mod ++ ["__init__"], relImport := some ("modules" :: i.mod) },
-        { name := "modules" :: i.mod, file := "modules" :: i.mod, relImport := none } ])
+        { name := "modules" :: i.mod, file := "modules" :: i.mod,
+          relImport := if isSub then some ("modules" :: i.mod).dropLast else none } ])
+
+/-- **current configuration of the two flags**: /repo with the `fix:` patches C11-F1 and C11-F4 (builder H's
+`notes/fixes_pending/`); the correspondence check certifies the values (against the unrepaired tree impl ≠ model on
+every sibling-relative import). -/
+def relFromPackageNow : Bool := true
+def submodKnowsDirNow : Bool := true
+
+/-- `module_import`'s candidate list as the code builds it today -/
+def candidates (self : Name) (rel : Option Path) (i : Imp) : Option (List Cand) :=
+  candidatesCfg relFromPackageNow submodKnowsDirNow self rel i
 
 /-- the contexts table, the load events so far (context name, source id), in order -/
 structure St where
